@@ -5,6 +5,8 @@ From Coq Require Import ZArith Lia.
 From Osmo Require Import Base.DecModel Gen.C12_consts C12.Model.
 Open Scope Z_scope.
 
+(* the translator found the source in the shape the model assumes *)
+Lemma translator_shape_ok_gen : translator_shape_ok = true. Proof. reflexivity. Qed.
 Lemma P36_gen : P36 = 10 ^ BigDecPrecision. Proof. reflexivity. Qed.
 Lemma P18_gen : P18 = 10 ^ DecPrecision. Proof. reflexivity. Qed.
 Lemma P72_gen : P72 = 10 ^ (2 * BigDecPrecision). Proof. reflexivity. Qed.
